@@ -123,6 +123,14 @@ func (s *State) evalPrefixIncrDecr(operator token.Type, node ast.Node) object.Ob
 	if log.LogVerbose() {
 		log.LogVf("eval prefix %s", ast.DebugString(node))
 	}
+	toAddR := int64(1)
+	if operator == token.DECR {
+		toAddR = -1
+	}
+	if reg, ok := node.(*object.Register); ok { // an integer parameter or loop variable held in a register.
+		*reg.Ptr() += toAddR
+		return object.Integer{Value: reg.Int64()}
+	}
 	nv := node.Value()
 	if nv.Type() != token.IDENT {
 		return s.NewError("can't prefix increment/decrement " + nv.DebugString())
